@@ -16,7 +16,7 @@ from mc.ref.calendar import RefCalendar
 TOGGLES = [
     "res15", "res10", "eff03", "eff15", "wkend", "leave", "vac", "limr", "limg", "limt", "gap", "prio", "alapE", "pin",
     "sc3", "sub", "month", "tz", "hours", "long", "r5", "deep", "dst", "rev", "shutdown", "night", "limmin", "many", "onstart", "cprio",
-    "tfirst", "allocrev", "inrev", "vac2", "dup", "nest",
+    "tfirst", "allocrev", "inrev", "vac2", "dup", "nest", "inh",
 ]
 LAST = ("rev", "inrev")   # toggles that permute what the others built: applied last
 FIRST = ("month", "dst")   # toggles that move the window: applied first, dated attributes follow the window
@@ -77,7 +77,7 @@ def _day(spec, n, suffix=""):
     return (datetime.strptime(spec["start"], "%Y-%m-%d") + timedelta(days=n)).strftime("%Y-%m-%d") + suffix
 
 
-def apply(spec, tg, n):
+def apply(spec, tg, n, core=False):
     if tg == "res15":
         spec["res_min"] = 15
     elif tg == "res10":
@@ -212,6 +212,20 @@ def apply(spec, tg, n):
                                                              {"k": "leaves", "type": "sick", "a": _day(spec, 29)},
                                                              {"k": "vacation", "a": _day(spec, 31), "b": _day(spec, 33)},
                                                              {"k": "leaves", "type": "special", "a": _day(spec, 35), "b": _day(spec, 38)}])
+    elif tg == "inh":
+        # values that arrive by INHERITANCE: efficiency and a day off stated on the department, working hours on the group (members
+        # that state their own value override it); a container that states the allocation (a team), a priority and a dependency
+        # for the leaves below it - one of which, two levels down, overrides allocation and priority (with the default value 500)
+        # under an inner container that has a dependency of its own
+        dept, grp = _res(spec, "dept"), _res(spec, "grp")
+        dept["eff"] = 0.5 if core else 0.8
+        dept.setdefault("leaves", []).append({"k": "leaves", "type": "annual", "a": _day(spec, 10)})
+        grp["hours"] = [("mon - fri", ["8:00 - 16:00"])]
+        spec["tasks"].append({"id": "T", "prio": 650, "stmt_alloc": ["r1", "r2"], "deps": [{"ref": "F" if n == 0 else "S"}], "children": [
+            {"id": "t1", "effort": 120, "alloc": ["r1", "r2"], "inh": ["alloc"]},
+            {"id": "Tin", "deps": [{"ref": "C"}], "children": [
+                {"id": "t2", "effort": 60, "alloc": ["r1", "r2"], "inh": ["alloc"]},
+                {"id": "t3", "effort": 60, "alloc": ["r4"], "prio": 500, "deps": [{"ref": "!t2"}]}]}]})
     elif tg == "rev":
         spec["tasks"].reverse()   # dependents are declared before what they wait for (ties: declaration order)
     elif tg == "deep":
@@ -246,7 +260,7 @@ def universe(tier):
 
 TOGGLES7 = ["res30", "res15", "res10", "effhalf", "wkend", "leave", "vac", "limr", "limg", "limt", "gap", "prio", "pin", "month", "tz",
             "hours", "long", "r5", "deep", "dst", "rev", "shutdown", "night", "limmin", "many", "onstart", "cprio",
-            "tfirst", "allocrev", "inrev", "vac2", "dup", "nest"]
+            "tfirst", "allocrev", "inrev", "vac2", "dup", "nest", "inh"]
 
 
 def to_spec7(item):
@@ -271,7 +285,7 @@ def to_spec7(item):
             spec["resources"].append({"id": "r5"})
             spec["tasks"].append({"id": "H", "effort": 660, "alloc": ["r5"], "deps": [{"ref": "C"}]})
         else:
-            apply(spec, tg, item["b"])
+            apply(spec, tg, item["b"], core=True)
     return spec
 
 
@@ -454,6 +468,6 @@ def sweep(ctx, st, prop):
 
 
 NOTE = ("'wide' family (all members with the compiled extensions, the members with <= 1 toggle - thorough <= 2 - again on the pure-Python fallbacks): 2 ten-task base projects (3-level task and resource trees, team, alternative, milestone, container edges, "
-        "window across the year boundary) x every subset of <= 2 (thorough: <= 3) of 36 feature toggles (resolution 15/10 min, efficiency "
+        "window across the year boundary) x every subset of <= 2 (thorough: <= 3) of 37 feature toggles (resolution 15/10 min, efficiency "
         "0.3/1.5, weekend-only resource, leaves, vacation, resource/group/task limits, gaps, priorities, ALAP task, container pin, third "
-        "scenario, sub-slot efforts, month boundary, time zone, split hours, multi-week effort, fifth resource, 5-level nesting, a window across two daylight-saving switches with zoned seven-day resources, reversed declaration order, a five-week project vacation, a Sunday-to-Thursday night shift, limits in minutes that are no round number of hours, eleven or more top-level tasks, an on-start edge followed by a plain edge, priorities inherited from containers, the task tree written before the resources, team members listed in the opposite order, children and depends entries in the opposite order, days off written latest-first, every list-like statement written twice, days off nested in / touching / overlapping each other)")
+        "scenario, sub-slot efforts, month boundary, time zone, split hours, multi-week effort, fifth resource, 5-level nesting, a window across two daylight-saving switches with zoned seven-day resources, reversed declaration order, a five-week project vacation, a Sunday-to-Thursday night shift, limits in minutes that are no round number of hours, eleven or more top-level tasks, an on-start edge followed by a plain edge, priorities inherited from containers, the task tree written before the resources, team members listed in the opposite order, children and depends entries in the opposite order, days off written latest-first, every list-like statement written twice, days off nested in / touching / overlapping each other, values that arrive by inheritance from resource groups and task containers)")
